@@ -1111,7 +1111,7 @@ func runH2History(t *testing.T, vt *vhT, seed int64, nOps int) {
 func TestVerifH2(t *testing.T) {
 	vt := vhOpen("h2")
 	defer vt.Close()
-	nHist, nOps := 150, 50
+	nHist, nOps := 300, 50
 	if vt.Thorough() {
 		nHist, nOps = 3000, 120
 	}
